@@ -9,6 +9,7 @@ import (
 	"context"
 	"flag"
 	"fmt"
+	"io"
 	"net/http"
 	"net/http/httptest"
 	"os"
@@ -162,7 +163,8 @@ func gen(seed uint64, tier string) {
 		}
 	}
 	// response capture: every sequence of up to 4 operations over a small alphabet, then random ones
-	alpha := []string{"h200", "h404", "h500", "h204", "w0", "w5", "w17"}
+	// s<n>:<a>: the underlying writer takes only a of the n bytes offered (as net/http does after 204/304 or past Content-Length)
+	alpha := []string{"h200", "h404", "h500", "h204", "w0", "w5", "w17", "s20:0", "s11:5"}
 	var rec func(prefix []string, depth int)
 	rec = func(prefix []string, depth int) {
 		if len(prefix) > 0 {
@@ -186,6 +188,9 @@ func gen(seed uint64, tier string) {
 		for j := 0; j < k; j++ {
 			if r.Intn(3) == 0 {
 				ops = append(ops, "h"+strconv.Itoa(200+r.Intn(400)))
+			} else if r.Intn(4) == 0 {
+				n := r.Intn(2000)
+				ops = append(ops, fmt.Sprintf("s%d:%d", n, r.Intn(n+1)))
 			} else {
 				ops = append(ops, "w"+strconv.Itoa(r.Intn(2000)))
 			}
@@ -321,13 +326,22 @@ func run(toks []string) string {
 	case "capture":
 		rec := httptest.NewRecorder()
 		// the recorder's Code defaults to 200 before anything is written; track "written" ourselves
-		w := httpmw.CaptureResponse(rec)
+		under := &shortWriter{ResponseWriter: rec, limit: -1}
+		w := httpmw.CaptureResponse(under)
 		wrote := false
 		for _, t := range toks[1:] {
-			n, _ := strconv.Atoi(t[1:])
-			if t[0] == 'h' {
+			switch t[0] {
+			case 'h':
+				n, _ := strconv.Atoi(t[1:])
 				w.WriteHeader(n)
-			} else {
+			case 's':
+				var n, acc int
+				fmt.Sscanf(t[1:], "%d:%d", &n, &acc)
+				under.limit = acc
+				_, _ = w.Write(make([]byte, n))
+				under.limit = -1
+			default:
+				n, _ := strconv.Atoi(t[1:])
 				_, _ = w.Write(make([]byte, n))
 			}
 			wrote = true
@@ -339,6 +353,21 @@ func run(toks []string) string {
 		return fmt.Sprintf("cap=%d/%d wire=%d/%d", w.StatusCode, w.ContentLength, code, rec.Body.Len())
 	}
 	return "bad-op"
+}
+
+// shortWriter accepts at most `limit` bytes of the next Write (limit < 0: everything) and reports the count it took,
+// as net/http's response writer does when a body is not allowed or exceeds the declared Content-Length.
+type shortWriter struct {
+	http.ResponseWriter
+	limit int
+}
+
+func (s *shortWriter) Write(b []byte) (int, error) {
+	if s.limit >= 0 && s.limit < len(b) {
+		n, _ := s.ResponseWriter.Write(b[:s.limit])
+		return n, io.ErrShortWrite
+	}
+	return s.ResponseWriter.Write(b)
 }
 
 // serveTrace runs one request through the real server-side trace middleware of the variant
